@@ -40,7 +40,16 @@ let id_of_tok (t : string) : BinNums.coq_N =
     n_of_zt (Z.add (Z.of_string "1000000000000")
                (Z.add (Z.mul (Z.of_int 1000) (Z.of_string (S.sub t 1 (S.length t - 1)))) (Z.of_int (Char.code t.[0]))))
   else n_of_string t
-let ids_of arg = if arg = "" then [] else L.map id_of_tok (split_on '/' arg)
+(* a list argument may end in *<n>: repeated cyclically up to n elements *)
+let ids_of arg =
+  if arg = "" then [] else
+    let (arg, n) = match S.index_opt arg '*' with
+      | Some i -> (S.sub arg 0 i, Some (int_of_string (S.sub arg (i + 1) (S.length arg - i - 1))))
+      | None -> (arg, None) in
+    let base = L.map id_of_tok (split_on '/' arg) in
+    match n with
+    | None -> base
+    | Some n -> let a = Array.of_list base in L.init n (fun i -> a.(i mod Array.length a))
 let int_opt x = try Some (z_of_zt (Z.of_string x)) with _ -> None
 let is_num x =
   (* what strconv.Atoi accepts: optional sign, then at least one decimal digit, nothing else, and the value fits a
@@ -80,6 +89,7 @@ let cres_string = function
 let model_query (s : Store.store) (q : string) : string =
   let (k, arg) = kind_arg q in
   match k with
+  | "D" -> "log=debug"
   | "X" -> "rows " ^ rows_string s
   | "H" -> (match Query.get_by_hash s (id_of_tok arg) with Some r -> "200 " ^ hdr_string r | None -> "404 ErrHeaderNotFound")
   | "S" -> (match Query.get_by_hash s (id_of_tok arg) with Some r -> "200 " ^ state_string r | None -> "404 ErrHeaderNotFound")
@@ -149,7 +159,7 @@ let spec_query (s : Store.store) (q : string) (obs : string) : (string * string)
   let fail c d = Some (c, q ^ " " ^ d) in
   if obs = "PANIC" then fail "panic-escaped" obs else
   match k with
-  | "X" -> None
+  | "X" | "D" -> None
   | "H" | "S" ->
     let render = if k = "H" then hdr_string else state_string in
     (match Store.by_hash s (id_of_tok arg) with
